@@ -191,6 +191,148 @@ static std::string op_rgb(const std::vector<std::string>& w)
     return "ok " + S(sb_rgb_color_encode_rgb565(c));
 }
 
+// ---------------------------------------------------------------- container
+static int make_fd(const std::vector<uint8_t>& v)
+{
+    int fd = memfd_create("sbh", 0);
+    if (fd < 0) {
+        perror("memfd_create");
+        exit(3);
+    }
+    size_t off = 0;
+    while (off < v.size()) {
+        ssize_t k = write(fd, v.data() + off, v.size() - off);
+        if (k <= 0) {
+            perror("write");
+            exit(3);
+        }
+        off += k;
+    }
+    lseek(fd, 0, SEEK_SET);
+    return fd;
+}
+
+static std::string code(sb_error_t e) { return e == SB_SUCCESS ? "0" : "e" + S(e); }
+
+static std::string op_file(const std::vector<std::string>& w)
+{
+    bool mem = w[1] == "mem";
+    std::vector<uint8_t> b = unhex(w[2]);
+    Guarded g(b);
+    int fd = -1;
+    sb_binary_file_parser_t parser;
+    sb_error_t e;
+    std::string out;
+    if (mem) {
+        e = sb_binary_file_parser_init_from_buffer(&parser, g.ptr, g.n);
+    } else {
+        fd = make_fd(b);
+        e = sb_binary_file_parser_init_from_file(&parser, fd);
+    }
+    out = "init:" + code(e);
+    if (e == SB_SUCCESS) {
+        std::string script = w.size() > 3 ? w[3] : "-";
+        std::stringstream ss(script);
+        std::string tok;
+        while (std::getline(ss, tok, ',')) {
+            if (tok.empty() || tok == "-") {
+                continue;
+            }
+            // the script stops at the first failing operation (the model's
+            // result type does not carry the parser state of a failed call)
+            {
+                size_t sp = out.rfind(' ');
+                std::string last = out.substr(sp == std::string::npos ? 0 : sp + 1);
+                size_t c1 = last.find(':');
+                if (c1 != std::string::npos && c1 + 1 < last.size() && (last[c1 + 1] == 'e' || last[c1 + 1] == 'o')) {
+                    break;
+                }
+            }
+            switch (tok[0]) {
+            case 'c': {
+                sb_binary_block_t blk = sb_binary_file_get_current_block(&parser);
+                out += " c:" + S((int)blk.type) + "," + S(blk.length) + "," + S(blk.start_of_body);
+                break;
+            }
+            case 'v':
+                out += " v:" + S(sb_binary_file_parser_get_version(&parser));
+                break;
+            case 'n':
+                out += " n:" + code(sb_binary_file_seek_to_next_block(&parser));
+                break;
+            case 'r':
+                out += " r:" + code(sb_binary_file_rewind(&parser));
+                break;
+            case 'f':
+                out += " f:" + code(sb_binary_file_find_first_block_by_type(&parser, (sb_binary_block_type_t)atoi(tok.c_str() + 1)));
+                break;
+            case 'b': {
+                sb_binary_block_t blk = sb_binary_file_get_current_block(&parser);
+                std::vector<uint8_t> dst(blk.length + 1, 0xEE);
+                sb_error_t r = sb_binary_file_read_current_block(&parser, dst.data());
+                out += " b:" + code(r);
+                if (r == SB_SUCCESS) {
+                    out += ":" + hex(dst.data(), blk.length);
+                }
+                break;
+            }
+            case 'x': {
+                uint8_t* p = 0;
+                size_t size = 0;
+                sb_bool_t owned = 0;
+                sb_error_t r = sb_binary_file_read_current_block_ex(&parser, &p, &size, &owned);
+                if (r != SB_SUCCESS) {
+                    out += " x:" + code(r);
+                } else if (!owned && (p < g.ptr || p + size > g.ptr + g.n)) {
+                    // a view that extends beyond the supplied bytes
+                    out += " x:oob1@" + S((long long)(p - g.ptr) + (long long)size);
+                } else {
+                    out += " x:0:" + S(owned ? 1 : 0) + ":" + hex(p, size);
+                    if (owned) {
+                        free(p);
+                    }
+                }
+                break;
+            }
+            default:
+                out += " ?" + tok;
+            }
+        }
+    }
+    sb_binary_file_parser_destroy(&parser);
+    if (fd >= 0) {
+        close(fd);
+    }
+    return out;
+}
+
+static std::string op_crc(const std::vector<std::string>& w)
+{
+    // crc <init> <hex> <split points, csv or ->: successive calls on the pieces
+    uint32_t crc = (uint32_t)strtoul(w[1].c_str(), 0, 10);
+    std::vector<uint8_t> b = unhex(w[2]);
+    std::vector<size_t> cuts;
+    if (w.size() > 3 && w[3] != "-") {
+        std::stringstream ss(w[3]);
+        std::string tok;
+        while (std::getline(ss, tok, ',')) {
+            cuts.push_back(strtoul(tok.c_str(), 0, 10));
+        }
+    }
+    cuts.push_back(b.size());
+    size_t pos = 0;
+    for (size_t c : cuts) {
+        if (c < pos || c > b.size()) {
+            continue;
+        }
+        std::vector<uint8_t> piece(b.begin() + pos, b.begin() + c);
+        Guarded g(piece);
+        crc = sb_ap_crc32_update(crc, g.ptr, (uint32_t)g.n);
+        pos = c;
+    }
+    return "ok " + U(crc);
+}
+
 // ---------------------------------------------------------------- dispatch
 static std::string run_case(const std::vector<std::string>& w)
 {
@@ -206,6 +348,16 @@ static std::string run_case(const std::vector<std::string>& w)
     }
     if (op == "rgbdec" || op == "rgbenc") {
         return op_rgb(w);
+    }
+    if (op == "file") {
+        return op_file(w);
+    }
+    if (op == "crc") {
+        return op_crc(w);
+    }
+    if (op == "crcspec") {
+        std::vector<std::string> w2 = { "crc", "0", w[1], "-" };
+        return op_crc(w2);
     }
     return "unknown-op " + op;
 }
